@@ -15,8 +15,9 @@ type Style struct {
 	BareFrom  bool // ... except the plain table names and aliases of FROM (so that the text also parses without the option)
 	Root      bool // the document is addressed under `root` (Wrapped): FROM paths get the prefix
 	ctes      map[string]bool
-	inSub     bool // rendering a row-scoped subquery: paths without <- are relative to the row
-	PadCounts bool // LIMIT / OFFSET counts written with a leading zero (a decimal number all the same)
+	outer     map[string]bool // CTE names of the enclosing statements
+	inSub     bool            // rendering a row-scoped subquery: paths without <- are relative to the row
+	PadCounts bool            // LIMIT / OFFSET counts written with a leading zero (a decimal number all the same)
 }
 
 // rooted prefixes a FROM path with `root` (after leading <- steps) unless it names a CTE.
@@ -157,6 +158,10 @@ func (st Style) path(p []string) string {
 	}
 	if simple && len(p) == 3 {
 		return st.quote(p[0]) + "." + st.quote(p[1]) + "." + st.quote(p[2])
+	}
+	if len(p) == 1 && !plainIdent.MatchString(p[0]) && p[0] != "<-" && !strings.ContainsAny(p[0], "`\"'.:[]{}=>") {
+		// one name that is no plain word (`k l`, `é`, `m-c`): a column of the row, written as a quoted identifier
+		return st.quote(p[0])
 	}
 	return st.quote(PathText(p))
 }
@@ -415,17 +420,37 @@ func (st Style) Query(q Node) string {
 		return side(q["l"].(Node)) + kw + side(q["r"].(Node)) + order + limitText(q, st.PadCounts)
 	}
 	var b strings.Builder
+	inner := st // the style of everything below this statement: its CTE names are names of an enclosing statement there
 	if with := seq(q["with"]); len(with) > 0 {
+		inner.outer = map[string]bool{}
+		for k := range st.outer {
+			inner.outer[k] = true
+		}
+		for _, c := range with {
+			inner.outer[c.(Node)["name"].(string)] = true
+		}
 		b.WriteString("WITH ")
 		for i, c := range with {
 			c := c.(Node)
 			if i > 0 {
 				b.WriteString(", ")
 			}
-			b.WriteString(st.ident(c["name"].(string)) + " AS (" + st.Query(c["q"].(Node)) + ")")
+			// inside its own body the name of a CTE means what it meant before the WITH: a CTE of an enclosing
+			// statement, or else a table of the document
+			body := inner
+			if name := c["name"].(string); st.ctes[name] && !st.outer[name] {
+				body.ctes = map[string]bool{}
+				for k, v := range st.ctes {
+					if k != name {
+						body.ctes[k] = v
+					}
+				}
+			}
+			b.WriteString(st.ident(c["name"].(string)) + " AS (" + body.Query(c["q"].(Node)) + ")")
 		}
 		b.WriteString(" ")
 	}
+	st = inner
 	b.WriteString("SELECT ")
 	if d, _ := q["distinct"].(bool); d {
 		b.WriteString("DISTINCT ")
